@@ -13,6 +13,7 @@
 //! `nstates`/`terr` are the widest build's (u32) state count / StateTableError flag; `accW` is how many
 //! stages width W accepted (0 grammar refused, 1 grammar only, 2 +stategraph, 3 +table).
 //! `I` line: per width `wN g:ok rl tl pl eof sp ml sl|g:refused  sg:ok n|sg:refused|sg:-  t:ok|t:err|t:refused|t:-`.
+use crate::gen::grammar;
 use crate::out::{guarded, Out};
 use crate::rng::Rng;
 use crate::Args;
@@ -109,6 +110,83 @@ struct Gen {
 const FAM_LAYOUT: u64 = 0;
 const FAM_RANDOM: u64 = 1;
 const FAM_TWOLONG: u64 = 2;
+const FAM_CONTEXTS: u64 = 3;
+
+/// Merge-context family (C02's `general_contexts`, and for case 0 a fixed LR(1)-but-not-LALR grammar
+/// with three kernel items per merged state): which same-core states Pager's construction merges is
+/// decided by iterating hash maps keyed by (production, dot) in `StorageT` — the decision, and so the
+/// table, must not depend on the width. p = [seed, case]
+fn gen_contexts(p: &[u64; 8]) -> Gen {
+    let mut rng = Rng::for_case(p[0], 2021, p[1]);
+    let text = if p[1] == 0 {
+        "%start X\n%%\nX: 'a' Y 'd' | 'a' Z 'c' | 'a' Q 'f' | 'b' Y 'e' | 'b' Z 'd' | 'b' Q 'g';\nY: 't';\nQ: 't';\nZ: 't';\n".to_string()
+    } else {
+        grammar::general_contexts(&mut rng)
+    };
+    // source facts and sentences from the text: `Name: sym … | sym … ;` per rule
+    let body = text.split("%%\n").nth(1).unwrap_or("");
+    let mut src = Src::default();
+    let mut toks: Vec<String> = Vec::new();
+    let mut rules: Vec<(String, Vec<Vec<String>>)> = Vec::new();
+    for def in body.split(';') {
+        let def = def.trim();
+        if def.is_empty() {
+            continue;
+        }
+        let mut it = def.splitn(2, ':');
+        let name = it.next().unwrap().trim().to_string();
+        let alts: Vec<Vec<String>> = it.next().unwrap_or("").split('|').map(|a| a.split_whitespace().map(|x| x.to_string()).collect()).collect();
+        for a in &alts {
+            let nt = a.iter().filter(|x| x.starts_with('\'')).count();
+            for x in a.iter().filter(|x| x.starts_with('\'')) {
+                let n = x.trim_matches('\'').to_string();
+                if !toks.contains(&n) {
+                    toks.push(n);
+                }
+            }
+            src.push_prod(a.len(), nt);
+        }
+        src.nrules += 1;
+        rules.push((name, alts));
+    }
+    src.ntokens = toks.len();
+    // every sentence: an alternative of the start rule with each rule reference replaced by that rule's
+    // first alternative (the referenced rules derive one string each, or are the dummies)
+    let first_of = |r: &str| -> Vec<String> { rules.iter().find(|(n, _)| n == r).map(|(_, a)| a[0].clone()).unwrap_or_default() };
+    let mut inputs: Vec<Vec<String>> = Vec::new();
+    for alt in rules[0].1.iter() {
+        let mut w: Vec<String> = Vec::new();
+        for x in alt {
+            if x.starts_with('\'') {
+                w.push(x.trim_matches('\'').to_string());
+            } else {
+                for y in first_of(x) {
+                    if y.starts_with('\'') {
+                        w.push(y.trim_matches('\'').to_string());
+                    } else {
+                        for z in first_of(&y) {
+                            w.push(z.trim_matches('\'').to_string());
+                        }
+                    }
+                }
+            }
+        }
+        inputs.push(w);
+    }
+    // and near-sentences: the terminator of one context after the opener of another
+    let n = inputs.len();
+    for i in 0..n.min(6) {
+        let j = (i + 1 + rng.below(n.max(2) - 1)) % n;
+        if inputs[i].len() >= 2 && !inputs[j].is_empty() {
+            let mut w = inputs[i].clone();
+            let l = w.len();
+            w[l - 1] = inputs[j].last().unwrap().clone();
+            inputs.push(w);
+        }
+    }
+    inputs.truncate(40);
+    Gen { yk: YaccKind::Original(YaccOriginalActionKind::GenericParseTree), text, src, inputs, token_names: toks, parse_ok: true }
+}
 
 /// Two long productions of different composition: p = [eco, k implicit tokens, a, b]:
 /// `Long: 'l' X…X` (a rule references: long in the source, one token) and `Toks: 't'…'t'` (b tokens:
@@ -484,6 +562,7 @@ fn generate(d: &Desc) -> Gen {
     match d.fam {
         FAM_LAYOUT => gen_layout(&d.p),
         FAM_TWOLONG => gen_twolong(&d.p),
+        FAM_CONTEXTS => gen_contexts(&d.p),
         _ => gen_random(&d.p),
     }
 }
@@ -1044,6 +1123,8 @@ fn describe_desc(d: &Desc) -> String {
         )
     } else if d.fam == FAM_TWOLONG {
         format!("two long productions eco={} implicit={} rule_refs={} tokens={}", d.p[0], d.p[1], d.p[2], d.p[3])
+    } else if d.fam == FAM_CONTEXTS {
+        format!("merge contexts seed={} case={}", d.p[0], d.p[1])
     } else {
         format!("random seed={} case={}", d.p[0], d.p[1])
     }
@@ -1247,7 +1328,7 @@ fn run_grammar_case(out: &mut Out, d: &Desc, stages: usize) {
         ),
     );
     // distribution
-    out.count(if d.fam == FAM_LAYOUT { "fam.layout" } else if d.fam == FAM_TWOLONG { "fam.twolong" } else { "fam.random" });
+    out.count(if d.fam == FAM_LAYOUT { "fam.layout" } else if d.fam == FAM_TWOLONG { "fam.twolong" } else if d.fam == FAM_CONTEXTS { "fam.contexts" } else { "fam.random" });
     if !g.parse_ok {
         out.count("parse_skipped.hidden_left_recursion");
     }
@@ -1434,6 +1515,11 @@ fn case_list(a: &Args) -> Vec<Case> {
     for c in 0..nrand {
         v.push(Case::Grammar(Desc { fam: FAM_RANDOM, p: [a.seed, c, 0, 0, 0, 0, 0, 0] }, 3));
     }
+    // merge contexts: the states Pager merges must not depend on the width
+    let nctx = if a.thorough { 400 } else { 40 };
+    for c in 0..nctx {
+        v.push(Case::Grammar(Desc { fam: FAM_CONTEXTS, p: [a.seed, c, 0, 0, 0, 0, 0, 0] }, 3));
+    }
     // random layouts around the u8 boundary (several dimensions near the edge at once)
     let nlay = if a.thorough { 600 } else { 80 };
     for c in 0..nlay {
@@ -1472,6 +1558,13 @@ fn parse_request(p: &str) -> Option<Case> {
 }
 
 pub fn run(a: &Args) {
+    if a.extra.first().map(|s| s.as_str()) == Some("--dump-contexts") {
+        let seed = a.extra.get(1).and_then(|x| x.parse().ok()).unwrap_or(1);
+        let case = a.extra.get(2).and_then(|x| x.parse().ok()).unwrap_or(0);
+        let g = gen_contexts(&[seed, case, 0, 0, 0, 0, 0, 0]);
+        println!("{}", g.text);
+        return;
+    }
     // debugging aid: `vharness C20 --dump-random SEED CASE` prints the generated text and inputs
     if a.extra.first().map(|s| s.as_str()) == Some("--dump-random") {
         let seed = a.extra.get(1).and_then(|x| x.parse().ok()).unwrap_or(1);
